@@ -738,29 +738,51 @@ func c14Feed(c *c14Case, stream []byte, response bool, onDone func(p *TextParser
 	return bounds, nil
 }
 
-func c14SplitClasses(info *c14Info, w *c14Wire, bounds []int) (inLen, crlf bool) {
-	bs := map[int]bool{}
+// c14BoundIndex answers "is there a delivery boundary in [lo,hi)" in O(1).
+type c14BoundIndex struct{ prefix []int }
+
+func c14IndexBounds(bounds []int, total int) *c14BoundIndex {
+	x := &c14BoundIndex{prefix: make([]int, total+3)}
 	for _, b := range bounds {
-		bs[b] = true
+		if b >= 0 && b < total+2 {
+			x.prefix[b+1]++
+		}
 	}
+	for i := 1; i < len(x.prefix); i++ {
+		x.prefix[i] += x.prefix[i-1]
+	}
+	return x
+}
+
+func (x *c14BoundIndex) any(lo, hi int) bool {
+	if lo < 0 {
+		lo = 0
+	}
+	if hi > len(x.prefix)-1 {
+		hi = len(x.prefix) - 1
+	}
+	return hi > lo && x.prefix[hi]-x.prefix[lo] > 0
+}
+
+func c14SplitClasses(info *c14Info, w *c14Wire, bounds []int) (inLen, crlf bool) {
+	x := c14IndexBounds(bounds, len(w.buf))
 	for _, l := range w.lenLines {
-		for b := l[0] + 1; b < l[1]; b++ {
-			if bs[b] {
-				inLen = true
-			}
+		if x.any(l[0]+1, l[1]) {
+			inLen = true
+			break
 		}
 	}
 	for _, n := range w.crlf {
-		if bs[n] {
+		if x.any(n, n+1) {
 			crlf = true
+			break
 		}
 	}
 	inData := false
 	for _, d := range w.dataSpans {
-		for _, b := range bounds {
-			if b > d[0] && b < d[1] {
-				inData = true
-			}
+		if x.any(d[0]+1, d[1]) {
+			inData = true
+			break
 		}
 	}
 	if inLen {
@@ -778,6 +800,44 @@ func c14SplitClasses(info *c14Info, w *c14Wire, bounds []int) (inLen, crlf bool)
 	return
 }
 
+const (
+	// a sequence of messages that each parse correctly on a fresh parser fails on one parser reused with Reset() in between
+	c14KeyState   = "C14:TextParser:state-carried-across-messages"
+	c14KeyNilBulk = "C14:TextParser.ParseResponse:nil-bulk-not-terminated"
+)
+
+// c14ParseAlone parses one complete message with a fresh parser in a single delivery.
+func c14ParseAlone(msg []byte, response bool) (argsType int, args []string, err error) {
+	p := NewTextParser(make([]byte, len(msg)+1), make([]byte, 16))
+	copy(p.GetReadBuf(), msg)
+	p.BufferUpdate(len(msg))
+	if response {
+		err = p.ParseResponse()
+	} else {
+		err = p.ParseRequest()
+	}
+	if err != nil {
+		return 0, nil, err
+	}
+	if !p.IsParseFinish() || !p.IsBufferEnd() {
+		return 0, nil, fmt.Errorf("a fresh parser does not finish the complete message %s (stage %d, %d of %d bytes consumed)", c14Quote(string(msg)), p.stage, p.bufIndex, len(msg))
+	}
+	return p.GetArgsType(), append([]string{}, p.GetArgs()...), nil
+}
+
+// c14SingleDelivery is the same case with the whole stream handed over in one read.
+func c14SingleDelivery(c *c14Case, total int) *c14Case {
+	s := *c
+	s.Rbuf, s.First, s.Pattern, s.Cuts = total+1, 0, nil, nil
+	return &s
+}
+
+func c14SeqClass(info *c14Info, prevArgs int, next string) {
+	if prevArgs > 64 {
+		info.class("message with > 64 arguments followed by " + next)
+	}
+}
+
 func c14Quote(s string) string {
 	if len(s) > 48 {
 		return fmt.Sprintf("%q...(%d bytes)", s[:48], len(s))
@@ -791,8 +851,9 @@ func c14RunTextReq(c *c14Case) (c14Info, error) {
 	w := &c14Wire{}
 	var want [][]string
 	var built []byte
+	var spans [][2]int
 	bp := NewTextParser(make([]byte, 16), make([]byte, 16))
-	for _, req := range c.Reqs {
+	for k, req := range c.Reqs {
 		args := make([]string, len(req))
 		w.lenLine('*', len(req))
 		for i, a := range req {
@@ -806,8 +867,13 @@ func c14RunTextReq(c *c14Case) (c14Info, error) {
 				info.class("argument longer than read buffer")
 			}
 		}
+		if k > 0 {
+			c14SeqClass(&info, len(want[k-1]), "a request")
+		}
 		want = append(want, args)
+		start := len(built)
 		built = append(built, bp.BuildRequest(args)...)
+		spans = append(spans, [2]int{start, len(built)})
 	}
 	if !bytes.Equal(built, w.buf) {
 		return info, c14Fail("C14:TextParser.BuildRequest:encoding", "BuildRequest output differs from RESP: %q vs %q", c14Quote(string(built)), c14Quote(string(w.buf)))
@@ -815,18 +881,45 @@ func c14RunTextReq(c *c14Case) (c14Info, error) {
 	if len(c.Reqs) > 1 {
 		info.class("several requests in one stream")
 	}
-	var got [][]string
-	bounds, err := c14Feed(c, built, false, func(p *TextParser) error {
-		args := append([]string{}, p.GetArgs()...)
-		k := len(got)
-		if k < len(want) && len(args) > 0 {
-			if p.GetCommandType() != strings.ToUpper(args[0]) || p.GetArgsCount() != len(want[k]) || p.GetArgsType() != 0 {
-				return fmt.Errorf("request %d: GetCommandType=%q GetArgsCount=%d GetArgsType=%d", k, p.GetCommandType(), p.GetArgsCount(), p.GetArgsType())
+	// metamorphic baseline: every message on its own fresh parser gives back what was built
+	for k, sp := range spans {
+		_, args, err := c14ParseAlone(built[sp[0]:sp[1]], false)
+		if err != nil || fmt.Sprint(args) != fmt.Sprint(want[k]) || len(args) != len(want[k]) {
+			return info, c14Fail("C14:TextParser.ParseRequest:roundtrip", "request %d alone on a fresh parser: err=%v, %d args parsed, %d built", k, err, len(args), len(want[k]))
+		}
+	}
+	verify := func(cc *c14Case) ([]int, error) {
+		var got [][]string
+		bounds, err := c14Feed(cc, built, false, func(p *TextParser) error {
+			args := append([]string{}, p.GetArgs()...)
+			k := len(got)
+			if k < len(want) && len(args) > 0 {
+				if p.GetCommandType() != strings.ToUpper(args[0]) || p.GetArgsCount() != len(want[k]) || p.GetArgsType() != 0 {
+					return fmt.Errorf("request %d: GetCommandType=%q GetArgsCount=%d GetArgsType=%d", k, p.GetCommandType(), p.GetArgsCount(), p.GetArgsType())
+				}
+			}
+			got = append(got, args)
+			return nil
+		})
+		if err != nil {
+			return bounds, err
+		}
+		if len(got) != len(want) {
+			return bounds, fmt.Errorf("parsed %d requests, stream holds %d", len(got), len(want))
+		}
+		for k := range want {
+			if len(got[k]) != len(want[k]) {
+				return bounds, fmt.Errorf("request %d: %d args parsed, %d sent", k, len(got[k]), len(want[k]))
+			}
+			for i := range want[k] {
+				if got[k][i] != want[k][i] {
+					return bounds, fmt.Errorf("request %d arg %d: parsed %s, sent (and parsed by a fresh parser) %s", k, i, c14Quote(got[k][i]), c14Quote(want[k][i]))
+				}
 			}
 		}
-		got = append(got, args)
-		return nil
-	})
+		return bounds, nil
+	}
+	bounds, err := verify(c)
 	inLen, crlf := c14SplitClasses(&info, w, bounds)
 	info.nontrivial = inLen || crlf
 	if len(c14CargTrigger(w, bounds)) > 0 {
@@ -834,21 +927,13 @@ func c14RunTextReq(c *c14Case) (c14Info, error) {
 		info.class("split argument whose last piece arrives without its CRLF")
 	}
 	if err != nil {
-		return info, c14Fail(key, "%v (deliveries %v)", err, c14Chunks(len(built), c.Rbuf, c.First, c.Pattern, c.Cuts))
-	}
-	if len(got) != len(want) {
-		return info, c14Fail(key, "parsed %d requests, stream holds %d", len(got), len(want))
-	}
-	for k := range want {
-		if len(got[k]) != len(want[k]) {
-			return info, c14Fail(key, "request %d: %d args parsed, %d sent", k, len(got[k]), len(want[k]))
-		}
-		for i := range want[k] {
-			if got[k][i] != want[k][i] {
-				return info, c14Fail(key, "request %d arg %d: parsed %s, sent %s (deliveries %v)", k, i, c14Quote(got[k][i]), c14Quote(want[k][i]),
-					c14Chunks(len(built), c.Rbuf, c.First, c.Pattern, c.Cuts))
+		if len(want) > 1 {
+			if _, serr := verify(c14SingleDelivery(c, len(built))); serr != nil {
+				key = c14KeyState
+				err = fmt.Errorf("%v; each request parses on a fresh parser, one reused parser fails even with a single delivery: %v", err, serr)
 			}
 		}
+		return info, c14Fail(key, "%v (deliveries %v)", err, c14Chunks(len(built), c.Rbuf, c.First, c.Pattern, c.Cuts))
 	}
 	return info, nil
 }
@@ -889,6 +974,18 @@ func c14GenSplit(t *rapid.T, st *vStat, c *c14Case, w *c14Wire, offending func(b
 		c.Pattern = []int{rapid.IntRange(1, 9).Draw(t, "step")}
 	default:
 		c.Pattern = rapid.SliceOfN(rapid.IntRange(1, 2048), 1, 8).Draw(t, "pattern")
+	}
+	if len(w.buf) > 8192 {
+		// a huge argument is appended piece by piece by the parser (quadratic copying): tiny pieces are kept for the
+		// small streams, a big stream is delivered in pieces of at least 64 bytes (explicit cuts still apply)
+		if c.Rbuf < 64 {
+			c.Rbuf = 1024
+		}
+		for i := range c.Pattern {
+			if c.Pattern[i] < 64 {
+				c.Pattern[i] += 64
+			}
+		}
 	}
 	var targets []int
 	for _, l := range w.lenLines {
@@ -966,26 +1063,18 @@ func c14Bounds(c *c14Case, total int) []int {
 const c14KeyCarg = "C14:TextParser:split-argument-tail-without-crlf"
 
 func c14CargTrigger(w *c14Wire, bounds []int) []int {
-	bs := map[int]bool{}
-	for _, b := range bounds {
-		bs[b] = true
-	}
+	x := c14IndexBounds(bounds, len(w.buf))
 	var out []int
 	for _, d := range w.dataSpans {
 		// the last piece of the data arrives in a delivery that does not also hold the closing LF
-		if (!bs[d[1]] && !bs[d[1]+1]) || d[1]-d[0] < 2 {
+		if d[1]-d[0] < 2 || !x.any(d[1], d[1]+2) || !x.any(d[0]+1, d[1]) {
 			continue
 		}
-		for _, b := range bounds {
-			if b > d[0] && b < d[1] {
-				if bs[d[1]] {
-					out = append(out, d[1])
-				}
-				if bs[d[1]+1] {
-					out = append(out, d[1]+1)
-				}
-				break
-			}
+		if x.any(d[1], d[1]+1) {
+			out = append(out, d[1])
+		}
+		if x.any(d[1]+1, d[1]+2) {
+			out = append(out, d[1]+1)
 		}
 	}
 	return out
@@ -999,18 +1088,31 @@ func TestC14_TextRequestChunking(t *testing.T) {
 	st := vstat("TestC14_TextRequestChunking")
 	rapid.Check(t, func(t *rapid.T) {
 		c := &c14Case{Kind: "textreq"}
-		nreq := rapid.SampledFrom([]int{1, 1, 1, 2, 3, 4}).Draw(t, "requests")
+		// one parser object serves the whole connection: sequences of up to 8 requests
+		nreq := rapid.SampledFrom([]int{1, 1, 2, 2, 3, 4, 6, 8}).Draw(t, "requests")
 		big := rapid.IntRange(0, 19).Draw(t, "big") == 0
 		w := &c14Wire{}
 		for r := 0; r < nreq; r++ {
 			// a request has at least a command name: "*0" is not a request any documented client can send
-			nargs := rapid.SampledFrom([]int{1, 2, 3, 4, 5, 8, 12, 40}).Draw(t, "nargs")
+			nargs := rapid.SampledFrom([]int{1, 2, 3, 4, 5, 8, 12, 40, 64, 65, 66, 100, 200}).Draw(t, "nargs")
 			var req []c14Arg
 			w.lenLine('*', nargs)
+			var pool []c14Arg
 			for i := 0; i < nargs; i++ {
-				a := c14GenArg(t, big)
-				if a.Rep > 1 {
-					big = false // at most one huge argument per case
+				var a c14Arg
+				if i < 6 || nargs <= 12 {
+					a = c14GenArg(t, big)
+					if a.Rep > 1 {
+						big = false // at most one huge argument per case
+					} else if len(a.bytes()) <= 40 {
+						pool = append(pool, a)
+					}
+				} else {
+					// long argument lists (MSET-like): the tail repeats a few short arguments, one draw each
+					if len(pool) == 0 {
+						pool = append(pool, c14ArgOf([]byte("v")))
+					}
+					a = pool[rapid.IntRange(0, len(pool)-1).Draw(t, "poolArg")]
 				}
 				req = append(req, a)
 				w.bulk(a.bytes())
@@ -1039,22 +1141,25 @@ func c14RunTextResp(c *c14Case) (c14Info, error) {
 	type exp struct {
 		argsType int
 		args     []string
+		isNil    bool
 	}
 	var want []exp
+	var spans [][2]int
 	bp := NewTextParser(make([]byte, 16), make([]byte, 16))
 	leakPos := map[int]bool{} // a delivery starting here, or a scan starting here, hits the delimiter-leak defect
-	for _, r := range c.Resps {
+	for k, r := range c.Resps {
 		msg := string(r.Msg.bytes())
 		var results []string
 		for _, a := range r.Results {
 			results = append(results, string(a.bytes()))
 		}
 		base := len(w.buf)
+		start := len(built)
 		switch r.Mode {
 		case "ok":
 			w.line('+', []byte(msg))
 			built = append(built, bp.BuildResponse(true, msg, nil)...)
-			want = append(want, exp{1, []string{msg}})
+			want = append(want, exp{1, []string{msg}, false})
 			leakPos[base+1+len(msg)], leakPos[base+2+len(msg)] = true, true
 			if msg == "" {
 				key = c14KeySimpleLeak
@@ -1074,41 +1179,112 @@ func c14RunTextResp(c *c14Case) (c14Info, error) {
 			if typ == "" {
 				key = c14KeySimpleLeak
 			}
-			want = append(want, exp{2, []string{typ, rest}})
+			want = append(want, exp{2, []string{typ, rest}, false})
 			leakPos[base+1+len(msg)], leakPos[base+2+len(msg)] = true, true
 		case "bulk":
 			w.bulk([]byte(results[0]))
 			built = append(built, bp.BuildResponse(true, msg, results[:1])...)
-			want = append(want, exp{3, results[:1]})
+			want = append(want, exp{3, results[:1], false})
+		case "nil":
+			// RESP nil bulk string, the server's answer to GET / GETSET / DUMP of a key without value ("$-1\r\n" in
+			// protocol/textcommand.go). BuildResponse cannot produce it, so there is no builder to compare with.
+			w.lenLine('$', -1)
+			built = append(built, "$-1\r\n"...)
+			want = append(want, exp{3, nil, true})
 		case "array":
 			w.lenLine('*', len(results))
 			for _, s := range results {
 				w.bulk([]byte(s))
 			}
 			built = append(built, bp.BuildResponse(true, msg, results)...)
-			want = append(want, exp{4, results})
+			want = append(want, exp{4, results, false})
 		default:
 			return info, fmt.Errorf("bad mode %q", r.Mode)
 		}
+		spans = append(spans, [2]int{start, len(built)})
 		info.class("reply:" + r.Mode)
+		if k > 0 {
+			next := map[string]string{"ok": "a simple string", "err": "an error", "bulk": "a single bulk string", "nil": "a nil bulk string", "array": "an array"}[r.Mode]
+			c14SeqClass(&info, len(want[k-1].args), next)
+		}
 	}
 	if !bytes.Equal(built, w.buf) {
 		return info, c14Fail("C14:TextParser.BuildResponse:encoding", "BuildResponse output differs from RESP: %s vs %s", c14Quote(string(built)), c14Quote(string(w.buf)))
+	}
+	// a nil bulk string carries no element; a parser that reports it as one empty element is tolerated
+	same := func(e exp, args []string) bool {
+		if e.isNil {
+			return len(args) == 0 || (len(args) == 1 && args[0] == "")
+		}
+		if len(args) != len(e.args) {
+			return false
+		}
+		for i := range args {
+			if args[i] != e.args[i] {
+				return false
+			}
+		}
+		return true
+	}
+	// metamorphic baseline: every message on its own fresh parser gives back what was built
+	for k, sp := range spans {
+		at, args, err := c14ParseAlone(built[sp[0]:sp[1]], true)
+		if err != nil || at != want[k].argsType || !same(want[k], args) {
+			fkey := "C14:TextParser.ParseResponse:roundtrip"
+			if want[k].isNil {
+				fkey = c14KeyNilBulk
+			} else if key == c14KeySimpleLeak {
+				fkey = key
+			}
+			return info, c14Fail(fkey, "reply %d (%s) alone on a fresh parser: err=%v, type %d, %d elements parsed; built type %d, %d elements", k, c.Resps[k].Mode, err, at, len(args), want[k].argsType, len(want[k].args))
+		}
 	}
 	type gotT struct {
 		argsType int
 		args     []string
 		cmd      *TextResponseCommand
 	}
-	var got []gotT
-	bounds, err := c14Feed(c, built, true, func(p *TextParser) error {
-		cmd, cerr := p.GetResponseCommand()
-		if cerr != nil {
-			return cerr
+	verify := func(cc *c14Case) ([]int, error) {
+		var got []gotT
+		bounds, err := c14Feed(cc, built, true, func(p *TextParser) error {
+			cmd, cerr := p.GetResponseCommand()
+			if cerr != nil {
+				return cerr
+			}
+			got = append(got, gotT{p.GetArgsType(), append([]string{}, p.GetArgs()...), cmd})
+			return nil
+		})
+		if err != nil {
+			return bounds, err
 		}
-		got = append(got, gotT{p.GetArgsType(), append([]string{}, p.GetArgs()...), cmd})
-		return nil
-	})
+		if len(got) != len(want) {
+			return bounds, fmt.Errorf("parsed %d replies, stream holds %d", len(got), len(want))
+		}
+		for k := range want {
+			if got[k].argsType != want[k].argsType {
+				return bounds, fmt.Errorf("reply %d: args type %d want %d", k, got[k].argsType, want[k].argsType)
+			}
+			if !same(want[k], got[k].args) {
+				for i := range want[k].args {
+					if i < len(got[k].args) && got[k].args[i] != want[k].args[i] {
+						return bounds, fmt.Errorf("reply %d (%s) element %d: parsed %s, sent (and parsed by a fresh parser) %s", k, c.Resps[k].Mode, i,
+							c14Quote(got[k].args[i]), c14Quote(want[k].args[i]))
+					}
+				}
+				return bounds, fmt.Errorf("reply %d (%s): %d elements parsed, %d sent", k, c.Resps[k].Mode, len(got[k].args), len(want[k].args))
+			}
+			cmd := got[k].cmd
+			if want[k].argsType == 2 {
+				if cmd.ErrorType != want[k].args[0] || cmd.Message != want[k].args[1] {
+					return bounds, fmt.Errorf("reply %d: response command (%q,%q) want %q", k, cmd.ErrorType, cmd.Message, want[k].args)
+				}
+			} else if !same(want[k], cmd.Results) {
+				return bounds, fmt.Errorf("reply %d: response command results differ", k)
+			}
+		}
+		return bounds, nil
+	}
+	bounds, err := verify(c)
 	if len(c14CargTrigger(w, bounds)) > 0 {
 		key = c14KeyCarg
 		info.class("split argument whose last piece arrives without its CRLF")
@@ -1121,34 +1297,14 @@ func c14RunTextResp(c *c14Case) (c14Info, error) {
 	}
 	inLen, crlf := c14SplitClasses(&info, w, bounds)
 	info.nontrivial = inLen || crlf
-	deliveries := func() []int { return c14Chunks(len(built), c.Rbuf, c.First, c.Pattern, c.Cuts) }
 	if err != nil {
-		return info, c14Fail(key, "%v (deliveries %v)", err, deliveries())
-	}
-	if len(got) != len(want) {
-		return info, c14Fail(key, "parsed %d replies, stream holds %d", len(got), len(want))
-	}
-	for k := range want {
-		if got[k].argsType != want[k].argsType {
-			return info, c14Fail(key, "reply %d: args type %d want %d", k, got[k].argsType, want[k].argsType)
-		}
-		if len(got[k].args) != len(want[k].args) {
-			return info, c14Fail(key, "reply %d: %d elements parsed, %d sent", k, len(got[k].args), len(want[k].args))
-		}
-		for i := range want[k].args {
-			if got[k].args[i] != want[k].args[i] {
-				return info, c14Fail(key, "reply %d (%s) element %d: parsed %s, sent %s (stream %s, deliveries %v)", k, c.Resps[k].Mode, i,
-					c14Quote(got[k].args[i]), c14Quote(want[k].args[i]), c14Quote(string(built)), deliveries())
+		if len(want) > 1 {
+			if _, serr := verify(c14SingleDelivery(c, len(built))); serr != nil {
+				key = c14KeyState
+				err = fmt.Errorf("%v; each reply parses on a fresh parser, one reused parser fails even with a single delivery: %v", err, serr)
 			}
 		}
-		cmd := got[k].cmd
-		if want[k].argsType == 2 {
-			if cmd.ErrorType != want[k].args[0] || cmd.Message != want[k].args[1] {
-				return info, c14Fail(key, "reply %d: response command (%q,%q) want %q", k, cmd.ErrorType, cmd.Message, want[k].args)
-			}
-		} else if fmt.Sprint(cmd.Results) != fmt.Sprint(want[k].args) {
-			return info, c14Fail(key, "reply %d: response command results differ", k)
-		}
+		return info, c14Fail(key, "%v (stream %s, deliveries %v)", err, c14Quote(string(built)), c14Chunks(len(built), c.Rbuf, c.First, c.Pattern, c.Cuts))
 	}
 	return info, nil
 }
@@ -1158,16 +1314,22 @@ func TestC14_TextResponseChunking(t *testing.T) {
 	rapid.Check(t, func(t *rapid.T) {
 		c := &c14Case{Kind: "textresp"}
 		known := vIsKnown(c14KeySimpleLeak)
-		n := rapid.SampledFrom([]int{1, 1, 2, 3, 5}).Draw(t, "replies")
+		// one parser object reads every reply of a connection: sequences of up to 8 replies
+		n := rapid.SampledFrom([]int{1, 1, 2, 2, 3, 5, 8}).Draw(t, "replies")
 		big := rapid.IntRange(0, 19).Draw(t, "big") == 0
 		w := &c14Wire{}
+		modes := []string{"ok", "err", "bulk", "bulk", "array", "array", "nil"}
+		if vIsKnown(c14KeyNilBulk) {
+			modes = modes[:len(modes)-1]
+			st.Exclude("nil bulk replies not generated: known finding " + c14KeyNilBulk)
+		}
 		avoid := map[int]bool{}
 		// RESP's own precondition: no CR / LF inside a simple string or an error
 		simple := rapid.SliceOfN(rapid.SampledFrom([]byte("OKERRabc xyz019_:-\t\x80\xff")), 0, 40)
 		for i := 0; i < n; i++ {
 			var r c14Resp
 			base := len(w.buf)
-			r.Mode = rapid.SampledFrom([]string{"ok", "err", "bulk", "array"}).Draw(t, "mode")
+			r.Mode = rapid.SampledFrom(modes).Draw(t, "mode")
 			switch r.Mode {
 			case "ok", "err":
 				m := simple.Draw(t, "msg")
@@ -1196,11 +1358,26 @@ func TestC14_TextResponseChunking(t *testing.T) {
 				a := c14GenArg(t, big)
 				r.Results = []c14Arg{a}
 				w.bulk(a.bytes())
+			case "nil":
+				w.lenLine('$', -1)
 			case "array":
-				k := rapid.SampledFrom([]int{2, 3, 12, 14}).Draw(t, "elements")
+				k := rapid.SampledFrom([]int{2, 3, 12, 14, 64, 65, 66, 100, 200}).Draw(t, "elements")
 				w.lenLine('*', k)
+				var pool []c14Arg
 				for j := 0; j < k; j++ {
-					a := c14GenArg(t, false)
+					var a c14Arg
+					if j < 6 || k <= 14 {
+						a = c14GenArg(t, false)
+						if len(a.bytes()) <= 40 {
+							pool = append(pool, a)
+						}
+					} else {
+						// long arrays (KEYS / SCAN replies): the tail repeats a few short elements, one draw each
+						if len(pool) == 0 {
+							pool = append(pool, c14ArgOf([]byte("k")))
+						}
+						a = pool[rapid.IntRange(0, len(pool)-1).Draw(t, "poolElem")]
+					}
 					r.Results = append(r.Results, a)
 					w.bulk(a.bytes())
 				}
